@@ -177,13 +177,16 @@ def run(tier, seed):
     quick = tier == 'quick'
     rep = Report(PID, tier, seed, 'model_checking')
     common.build_mmdump()
-    mirs = [common.dump_mir('mimium_lang')[0], common.dump_mir('state_tree')[0]]
+    mirs = common.prog_mirs()
     os.makedirs(GDIR, exist_ok=True)
     steps = 4 if quick else 8
     budget = 90 if quick else 400
     qto = 5000 if quick else 30000
     jobs, names = [], []
+    only = os.environ.get('VERIF_ONLY')
     for n, p in sorted(c02_corpus.PROGRAMS.items()):
+        if only and not n.startswith(tuple(only.split(','))):
+            continue
         f = os.path.join(GDIR, n + '.mmm')
         open(f, 'w').write(lang.render_program(p))
         names.append(n)
